@@ -74,6 +74,8 @@ def time_call_sites(M, roots):
             if not isinstance(n, ast.Call):
                 continue
             tg, how, layer = M.resolve_any(fn, n, env)
+            if layer == 3:
+                continue        # name-based guess only: ambiguity never convicts
             for callee in tg:
                 ps = callee.pos_params
                 if callee.cls is not None and not callee.is_static and ps and ps[0] in ('self', 'cls'):
